@@ -31,11 +31,16 @@ def addr(b):
     return ipaddress.ip_address(bytes(b))
 
 
-def build_payload(p):
-    """Library object from abstract content, through the constructors only (no parser involved)."""
+def build_payload(p, shared=None):
+    """Library object from abstract content, through the constructors only (no parser involved). With `shared` (a dict) equal transforms and selectors are
+    ONE object used in several places, as the configuration loader's name tables hand them out."""
     t = p['type']
     if t == 33:
-        return M.PayloadSA([M.Proposal(pr['num'], pr['proto'], pr['spi'], [T(x['type'], x['id'], x['keylen']) for x in pr['transforms']]) for pr in p['proposals']])
+        def tr(x):
+            if shared is None:
+                return T(x['type'], x['id'], x['keylen'])
+            return shared.setdefault(('T', x['type'], x['id'], x['keylen']), T(x['type'], x['id'], x['keylen']))
+        return M.PayloadSA([M.Proposal(pr['num'], pr['proto'], pr['spi'], [tr(x) for x in pr['transforms']]) for pr in p['proposals']])
     if t == 34:
         return M.PayloadKE(p['group'], p['data'])
     if t == 35:
@@ -53,7 +58,10 @@ def build_payload(p):
     if t == 43:
         return M.PayloadVENDOR(p['data'])
     if t in (44, 45):
-        sels = [M.TrafficSelector(s['tstype'], s['ipproto'], s['sport'], s['eport'], addr(s['saddr']), addr(s['eaddr'])) for s in p['selectors']]
+        def ts(s):
+            o = M.TrafficSelector(s['tstype'], s['ipproto'], s['sport'], s['eport'], addr(s['saddr']), addr(s['eaddr']))
+            return o if shared is None else shared.setdefault(('S', s['tstype'], s['ipproto'], s['sport'], s['eport'], bytes(s['saddr']), bytes(s['eaddr'])), o)
+        sels = [ts(s) for s in p['selectors']]
         return (M.PayloadTSi if t == 44 else M.PayloadTSr)(sels)
     raise KeyError(t)
 
@@ -205,6 +213,9 @@ def check_dump(ck, m, parsed, encrypted, case):
 def run(ck):
     thorough = ck.thorough()
     rng = ck.rng('c05', ck.shard[0])
+    for i in range(9 if not thorough else 300):
+        if ck.mine(i):
+            deferred_dump(ck, i)
     N = 5000 if not thorough else 900000
     for i in range(N):
         if not ck.mine(i):
@@ -222,7 +233,10 @@ def run(ck):
                 ck.count('payloads.ipv6_selectors')
         # ---- (1) encoder differential through the constructors
         try:
-            objs = [build_payload(p) for p in m['payloads']]
+            shared = {} if i % 2 else None
+            if shared is not None:
+                ck.count('encode.built_with_shared_objects')
+            objs = [build_payload(p, shared) for p in m['payloads']]
         except FAMILY as ex:
             ck.violation(f'constructor-refuses-rfc-valid-content:{type(ex).__name__}', {'exc': repr(ex)[:120], **case}, case)
             continue
@@ -510,8 +524,71 @@ def framing(ck, rng, m, data):
             ck.violation(f'chain-not-ending-at-the-end-of-the-data-accepted:{cls.rstrip("+-0123456789")}', {'variant': v, 'original': data}, {'variant': v})
 
 
+def deferred_dump(ck, i):
+    """The dumps of a whole handshake with COOKIE and INVALID_KE_PAYLOAD retries, kept as LogRecords and FORMATTED AFTERWARDS (what logging.handlers.MemoryHandler
+    and any buffering handler do): every IKE_SA_INIT request that went over the wire is dumped twice (by its sender and by its receiver) with exactly the
+    payloads that datagram carried - a dump that is rendered from a message object reused for the next attempt shows another message."""
+    import logging
+    from vf import sim as S_
+    kind = ('cookie', 'invalid-ke', 'cookie+invalid-ke')[i % 3]
+    ike_a = {'encr': ['aes256'], 'integ': ['sha256'], 'prf': ['sha256'], 'dh': ['14', '19'] if 'invalid-ke' in kind else ['19']}
+    ike_b = dict(ike_a, dh=['19'])
+    sim_, a_, b_ = S_.make_pair(ck.seed * 5 + i, ike_a=ike_a, ike_b=ike_b)
+    if 'cookie' in kind:
+        b_.ctl.cookie_threshold = 0
+    case = {'family': 'deferred-dump', 'retries': kind}
+    recs = []
+
+    class H(logging.Handler):
+        def emit(self, record):
+            recs.append(record)
+    root = logging.getLogger()
+    saved = (root.level, list(root.handlers), logging.root.manager.disable)
+    root.handlers = [H(level=logging.DEBUG)]
+    root.setLevel(logging.DEBUG)
+    logging.disable(logging.NOTSET)
+    try:
+        sim_.acquire(a_, 0)
+        sim_.drain()
+    finally:
+        root.handlers = saved[1]
+        root.setLevel(saved[0])
+        logging.disable(saved[2])
+    NAMES = {33: 'SA', 34: 'KE', 40: 'NONCE', 41: 'NOTIFY', 43: 'VENDOR'}
+    dumps = []
+    for r in recs:
+        try:
+            msg = r.getMessage()
+        except Exception as ex:
+            ck.violation('log-record-of-a-message-could-not-be-formatted', {'error': repr(ex)[:120]}, case)
+            return
+        if r.levelno == logging.DEBUG and '"exchange_type": "IKE_SA_INIT"' in msg and '{' in msg:
+            try:
+                d = json.loads(msg[msg.index('{'):])
+            except ValueError:
+                continue
+            if d.get('is_request'):
+                dumps.append([(p.get('type'), p.get('notification_type'), p.get('dh_group')) for p in d['payloads']])
+    wire = [w[3] for w in sim_.wire if w[3][18] == 34 and not w[3][19] & 0x20]
+    ck.count('deferred_dump.handshakes')
+    ck.nontrivial(('deferred-dump', kind, len(wire)))
+    for k, data in enumerate(wire):
+        m = codec.decode(data, strict_bodies=False)
+        want = [(NAMES.get(p['type'], str(p['type'])), 'COOKIE' if p['type'] == 41 and p.get('ntype') == 16390 else None, p.get('group') if p['type'] == 34 else None)
+                for p in m['payloads']]
+        n = sum(1 for d in dumps if [(t, nt if t == 'NOTIFY' else None, g) for t, nt, g in d] == want)
+        ck.count('deferred_dump.requests_compared')
+        if n < 2:
+            ck.violation('dump-formatted-after-the-exchange-does-not-show-the-request-that-was-sent', {'attempt': k, 'on_the_wire': want, 'dumps': dumps, 'retries': kind}, case)
+            return
+    if len(wire) >= 2:
+        ck.count('deferred_dump.handshakes_with_a_repeated_request')
+
+
 def verdict(ck):
     c = ck.counters
+    ck.floor('handshakes with a repeated IKE_SA_INIT request whose dumps were formatted afterwards', c['deferred_dump.handshakes_with_a_repeated_request'], 6)
+    ck.floor('messages built from objects shared between several places', c['encode.built_with_shared_objects'], 1500)
     for t in (33, 34, 35, 36, 39, 40, 41, 42, 43, 44, 45):
         ck.floor(f'payload type {t} instances', c[f'payloads.type{t}'], 200)
     ck.floor('messages serialised again after an edit', sum(v for k, v in c.items() if k.startswith('edited.')), 800)
